@@ -562,7 +562,83 @@ func lenBucket(n int) int { return n }
 var dataSizes = []int{0, 1, 75, 76, 255, 256, 65535, 65536, 100000}
 var ctSizes = []int{0, 1, 24, 75, 76, 255, 256}
 
+// inscribeHistories: several inscriptions on one transaction that share ONE prefix object — as built by the
+// library's own constructors (which leave spare capacity), with explicit spare capacity, exact, or taken from
+// ParseInscription of an earlier script; every output must keep parsing back to what was inscribed in it, and
+// the script the prefix was parsed from must not change.
+func inscribeHistories(r *common.Rand) {
+	n := 60
+	if c.Thorough() {
+		n = 1500
+	}
+	for k := 0; k < n; k++ {
+		h := r.Bytes(20)
+		var pfx *bscript.Script
+		var origin *bscript.Script
+		var originBytes []byte
+		how := ""
+		switch k % 4 {
+		case 0:
+			pfx, _ = bscript.NewP2PKHFromPubKeyHash(h)
+			how = "NewP2PKHFromPubKeyHash"
+		case 1:
+			b := make([]byte, 25, 25+r.Intn(200))
+			copy(b, feegen.P2PKH(h))
+			sc := bscript.Script(b)
+			pfx, how = &sc, "spare-capacity"
+		case 2:
+			sc := bscript.Script(feegen.P2PKH(h))
+			pfx, how = &sc, "exact"
+		default:
+			o := bscript.Script(feegen.Inscription(h, []byte("text/plain"), r.Bytes(1+r.Intn(40))))
+			origin, originBytes = &o, append([]byte{}, o...)
+			if ia, err := origin.ParseInscription(); err == nil && ia != nil {
+				pfx, how = ia.LockingScriptPrefix, "ParseInscription"
+			} else {
+				continue
+			}
+		}
+		want := append([]byte{}, (*pfx)...)
+		tx := bt.NewTx()
+		type item struct{ ct, data []byte }
+		var items []item
+		m := 2 + r.Intn(3)
+		twin := map[string]interface{}{"kind": "inscribe-history", "prefix_from": how, "inscriptions": m}
+		failed := false
+		for j := 0; j < m && !failed; j++ {
+			it := item{r.Bytes(r.Pick([]int{0, 1, 3, 10, 24})), r.Bytes(r.Pick([]int{0, 1, 4, 20, 75, 76, 300}))}
+			items = append(items, it)
+			var err error
+			if p, msg := common.Safely(func() {
+				err = tx.Inscribe(&bscript.InscriptionArgs{LockingScriptPrefix: pfx, ContentType: string(it.ct), Data: it.data})
+			}); p || err != nil {
+				c.Violate("Inscribe/error", fmt.Sprint(msg, err), twin)
+				failed = true
+			}
+		}
+		if failed || len(tx.Outputs) != m {
+			continue
+		}
+		c.Tally("inscribe-history/" + how)
+		if !bytes.Equal(*pfx, want) {
+			c.Violate("Inscribe/prefix-modified", "the caller's LockingScriptPrefix was changed", twin)
+		}
+		if origin != nil && !bytes.Equal(*origin, originBytes) {
+			c.Violate("Inscribe/writes-into-the-script-the-prefix-was-parsed-from", fmt.Sprintf("%x -> %x", trunc(originBytes), trunc(*origin)), twin)
+		}
+		for j, it := range items {
+			_, got, ok := parseObs(append([]byte{}, *tx.Outputs[j].LockingScript...))
+			if !ok || got.ContentType != string(it.ct) || !bytes.Equal(got.Data, it.data) || !bytes.Equal(*got.LockingScriptPrefix, want) {
+				c.Violate("Inscribe/roundtrip-after-later-inscriptions", fmt.Sprintf("output %d of %d no longer parses back to what was inscribed in it (content type %x, %d data bytes)", j, m, it.ct, len(it.data)), twin)
+				break
+			}
+		}
+		c.Case("", twin, fmt.Sprintf("ih|%d|%x", k, h), true)
+	}
+}
+
 func inscriptionCases(r *common.Rand) {
+	inscribeHistories(r)
 	prefix := func() []byte { return feegen.P2PKH(r.Bytes(20)) }
 	var small [][]byte
 	for _, dn := range dataSizes {
@@ -753,6 +829,6 @@ func main() {
 	flowCases(r.Fork(), bases)
 	inscriptionCases(r.Fork())
 	rangeCases(r.Fork())
-	c.Stats.Rule = "flows: per flow (ListOrdinalForSale+AcceptOrdinalSaleListing, the 2-dummy variant, MakeBid+AcceptBid, the 2-dummy variant) seeded base scenarios: fresh secp256k1 keys for seller and 2 buyer keys, ordinal UTXO (P2PKH or P2PKH-inscription of the seller, 1/2/10/1000 sat), price from {1,2,545,546,1000,..,2^32+5,21e14} or random < 1e8, 2..5 funding UTXOs (3..5 for 2 dummies) with the UTXO worth more than the price at a random position and the others at price / price-1 / price/2 / small, one of 11 fee quotes (0..50 sat/byte, unequal std/data); in the standard flows the seller is paid on P2PKH or (one in four) on a 1-of-2 multisig, P2PK, one-byte, inscription or P2SH script; each base is run amply funded (a well-formed amply funded offer that is turned down is reported: funded-offer-rejected), then under- and over-funded by the harness's own fee estimate (size of the ample result x quote, independent of the flow's verdict), then at the fee boundary found by bisection on one UTXO's value (smallest value for which the flow returns a transaction) -1/0/+1 and at random points inside a 140-sat window on both sides, plus negatives (validation given another UTXO, too few UTXOs, no UTXO above the price, quote lacking a fee type, seller's ExpectedFQ 0.9..2x the bidder's quote at its own boundary). Every returned transaction: each input executed by the real interpreter (re-decoded tx, previous output from the scenario, FORKID+after-genesis), seller output at the ordinal's input index, FIFO routing of the ordinal's first satoshi computed over big integers, fee >= quoted fee of the final serialisation. inscriptions: content-type lengths {0,1,24,75,76,255,256} x payload lengths {0,1,75,76,255,256,65535,65536,100000} (long ones for one content type in quick), script-like payloads, enriched OP_RETURN tails, random small; ParseInscription on all 144 pairs of 12 push encodings at the content-type/data positions, and bit flips / truncations / deletions / insertions / appends of inscribed scripts and random scripts; InscribeSpecificOrdinal on 0..4 inputs with values incl. 0, 2^63, 2^64-1, index up to len+1 and 2^31/2^32-1. distinct = distinct (flow, price, quote, funding values, ordinal script) / (prefix, content type, payload) / script / (values, index, satoshi); all cases non-trivial except rangeAbove on no inputs"
+	c.Stats.Rule = "flows: per flow (ListOrdinalForSale+AcceptOrdinalSaleListing, the 2-dummy variant, MakeBid+AcceptBid, the 2-dummy variant) seeded base scenarios: fresh secp256k1 keys for seller and 2 buyer keys, ordinal UTXO (P2PKH or P2PKH-inscription of the seller, 1/2/10/1000 sat), price from {1,2,545,546,1000,..,2^32+5,21e14} or random < 1e8, 2..5 funding UTXOs (3..5 for 2 dummies) with the UTXO worth more than the price at a random position and the others at price / price-1 / price/2 / small, one of 11 fee quotes (0..50 sat/byte, unequal std/data); in the standard flows the seller is paid on P2PKH or (one in four) on a 1-of-2 multisig, P2PK, one-byte, inscription or P2SH script; each base is run amply funded (a well-formed amply funded offer that is turned down is reported: funded-offer-rejected), then under- and over-funded by the harness's own fee estimate (size of the ample result x quote, independent of the flow's verdict), then at the fee boundary found by bisection on one UTXO's value (smallest value for which the flow returns a transaction) -1/0/+1 and at random points inside a 140-sat window on both sides, plus negatives (validation given another UTXO, too few UTXOs, no UTXO above the price, quote lacking a fee type, seller's ExpectedFQ 0.9..2x the bidder's quote at its own boundary). Every returned transaction: each input executed by the real interpreter (re-decoded tx, previous output from the scenario, FORKID+after-genesis), seller output at the ordinal's input index, FIFO routing of the ordinal's first satoshi computed over big integers, fee >= quoted fee of the final serialisation. inscription histories: 2..4 inscriptions on one transaction sharing one prefix object (from NewP2PKHFromPubKeyHash, with spare capacity, exact, or returned by ParseInscription), every output re-parsed afterwards; inscriptions: content-type lengths {0,1,24,75,76,255,256} x payload lengths {0,1,75,76,255,256,65535,65536,100000} (long ones for one content type in quick), script-like payloads, enriched OP_RETURN tails, random small; ParseInscription on all 144 pairs of 12 push encodings at the content-type/data positions, and bit flips / truncations / deletions / insertions / appends of inscribed scripts and random scripts; InscribeSpecificOrdinal on 0..4 inputs with values incl. 0, 2^63, 2^64-1, index up to len+1 and 2^31/2^32-1. distinct = distinct (flow, price, quote, funding values, ordinal script) / (prefix, content type, payload) / script / (values, index, satoshi); all cases non-trivial except rangeAbove on no inputs"
 	c.Finish()
 }
